@@ -44,6 +44,7 @@ fn main() {
                     hilbert::drive(seed, &tier, zmax, &mut out);
                 }
                 "files" => files::drive_files(seed, &tier, arg(&args, "--stim"), arg(&args, "--mode").unwrap_or("c03"), &mut out),
+                "longrun" => store::drive_longrun(seed, &mut out),
                 "reject" => files::drive_reject(seed, &mut out),
                 "writedirs" => files::drive_writedirs(seed, &tier, &mut out),
                 "steer" => files::drive_steer(seed, &tier, &mut out),
